@@ -95,7 +95,12 @@ func init() {
 			cfg := p.AdvCfg
 			cfg.Inv.CLTV = pick(t, "cltv", []int{-1, 1, 144, 400, 490, 500, 503, 504})
 			cfg.ConfirmNow = pick(t, "confirm", []int{0, 3, 3, 6})
-			cfg.AnnounceDelayMs = pick(t, "delay", []int{0, 1000, 100000})
+			cfg.AnnounceDelayMs = pick(t, "delay", []int{0, 1000, 100000, 250000})
+			// the taker is restarted while it waits for the announcement
+			if rapid.Bool().Draw(t, "restartwhilewaiting") {
+				p.Ops = append(p.Ops, world.Op{AtMs: pick(t, "crashat", []int{3000, 20000, 60000, 120000}), Node: 0, Kind: "crash", N: int64(pick(t, "crestart", []int{500, 5000}))})
+			}
+			p.Scn.DurationSec = 900
 			// the taker is slow: chain bursts pass while it waits / is down
 			n := rapid.IntRange(0, 3).Draw(t, "nbursts")
 			for i := 0; i < n; i++ {
@@ -144,6 +149,9 @@ func init() {
 				p.Ops[0].Limit = pick(t, "limit", []int64{0, 1000, 50000, -1000})
 				p.AdvCfg.Premium = pick(t, "prem", []int64{0, 1, 100, 1000, 5000, 50000, -1, -100000, -1000001, 1 << 62, -(1 << 62)})
 				p.AdvCfg.FeeSat = pick(t, "fee", []int64{0, 1, 3500, 10000, 10500, 10501, 35000, 1000000})
+				if rapid.IntRange(0, 3).Draw(t, "feeraw") == 0 {
+					p.AdvCfg.FeeMsatRaw = pick(t, "feerawv", []uint64{^uint64(0), ^uint64(0) - 500, ^uint64(0) - 998, ^uint64(0) - 1000, 1 << 63, 1<<63 + 1, 10500999, 10501000})
+				}
 			case 1:
 				// hostile taker answering our swap-in
 				p = genPlan(t, genOpts{types: []string{"swapin"}, sched: true, duration: []int{300}})
@@ -221,7 +229,7 @@ func init() {
 			if !scn.BitcoinOn[0] && !scn.LiquidOn[0] {
 				scn.BitcoinOn[0] = true
 			}
-			scn.WalletSat[0] = pick(t, "wallet", []uint64{50_000_000, 600_000, 100_000})
+			scn.WalletSat[0] = pick(t, "wallet", []uint64{50_000_000, 50_000_000, 600_000, 100_000, 3_000, 100, 0})
 			if rapid.Bool().Draw(t, "rates") {
 				scn.PremiumPPM[0] = []int64{pick(t, "r1", []int64{0, 1000, -500, 20000}), pick(t, "r2", []int64{0, 2000, -500, 20000}), pick(t, "r3", []int64{0, 1000, 20000}), pick(t, "r4", []int64{0, 1000, 20000})}
 			}
@@ -370,7 +378,13 @@ func init() {
 			p.Comp = append(p.Comp, world.CompOp{Kind: "file", S: content, Arg: style})
 			no := rapid.IntRange(1, 8).Draw(t, "nops")
 			for i := 0; i < no; i++ {
-				op := world.CompOp{Kind: pick(t, "op", []string{"policy-allow", "policy-allow", "policy-unallow", "policy-suspect", "policy-unsuspect", "policy-disable", "policy-enable", "policy-reload", "restart"}), Peer: rapid.IntRange(1, 5).Draw(t, "peer")}
+				op := world.CompOp{Kind: pick(t, "op", []string{"policy-allow", "policy-allow", "policy-unallow", "policy-suspect", "policy-unsuspect", "policy-disable", "policy-enable", "policy-reload", "restart", "edit-min", "edit-acceptall", "edit-allow"}), Peer: rapid.IntRange(1, 5).Draw(t, "peer")}
+				if op.Kind == "edit-min" {
+					op.N = pick(t, "editmin", []int64{1, 100000000, 500000000, 7777})
+				}
+				if op.Kind == "edit-acceptall" {
+					op.N = int64(rapid.IntRange(0, 1).Draw(t, "editaa"))
+				}
 				if rapid.IntRange(0, 7).Draw(t, "badkey") == 0 {
 					op.S = pick(t, "bad", []string{"", "02abc", "zz" + pk(1)[2:], pk(1) + "00", "02" + pk(1)[2:66][:62] + "GG"})
 					if op.S == "" {
@@ -489,5 +503,93 @@ func init() {
 		},
 		Monitors:   world.MonitorsFor("C10"),
 		Nontrivial: func(r *world.Result) bool { return probe(r, "C10:contention") || probe(r, "C10:two-active") },
+	})
+}
+
+func init() {
+	register(&PropDef{
+		ID: "C28",
+		Gen: func(t *rapid.T, tier string) *world.Plan {
+			p := &world.Plan{Seed: rapid.Uint64Range(1, 1<<40).Draw(t, "seed"), Scn: world.DefaultScenario()}
+			scn := &p.Scn
+			scn.Component = "peersync"
+			scn.PeerSync = true
+			scn.Kind = [2]string{"real", "adv"}
+			scn.BlockEverySec = 0
+			scn.DurationSec = pick(t, "dur", []int{600, 2400, 5400})
+			scn.Channels = append(scn.Channels, world.ChannelCfg{Block: 200, Tx: 2, Out: 0, A: 0, B: 2, BalA: 1, BalB: 1})
+			if rapid.IntRange(0, 4).Draw(t, "susp") == 0 {
+				scn.Suspicious[0] = append(scn.Suspicious[0], rapid.IntRange(1, 2).Draw(t, "suspwho"))
+			}
+			cfg := &world.AdvCfg{Role: "taker", Chain: "btc"}
+			n := rapid.IntRange(1, 8).Draw(t, "npolls")
+			at := 1000
+			for i := 0; i < n; i++ {
+				at += pick(t, "gap", []int{500, 5000, 60000, 600000, 1900000})
+				cfg.Polls = append(cfg.Polls, world.PollKnob{AtMs: at, Request: rapid.Bool().Draw(t, "req"), Version: pick(t, "ver", []uint64{7, 7, 7, 6, 8, 0}), Rate: int64(1000 + i),
+					From: pick(t, "from", []int{0, 0, 2}), Garbage: rapid.IntRange(0, 7).Draw(t, "garbage") == 0})
+			}
+			p.AdvCfg = cfg
+			no := rapid.IntRange(0, 3).Draw(t, "nops")
+			for i := 0; i < no; i++ {
+				switch rapid.IntRange(0, 2).Draw(t, "opk") {
+				case 0:
+					p.Ops = append(p.Ops, world.Op{AtMs: rapid.IntRange(2000, scn.DurationSec*1000).Draw(t, "opat"), Node: 0, Kind: "disconnect", Peer: rapid.IntRange(1, 2).Draw(t, "oppeer")})
+				case 1:
+					p.Ops = append(p.Ops, world.Op{AtMs: rapid.IntRange(2000, scn.DurationSec*1000).Draw(t, "opat"), Node: 0, Kind: "crash", N: int64(pick(t, "restart", []int{500, 5000, 120000}))})
+				case 2:
+					p.Ops = append(p.Ops, world.Op{AtMs: rapid.IntRange(2000, scn.DurationSec*1000).Draw(t, "opat"), Node: 0, Kind: "connect", Peer: rapid.IntRange(1, 2).Draw(t, "oppeer")})
+				}
+			}
+			if rapid.Bool().Draw(t, "sched") {
+				p.SchedSeed = rapid.Uint64Range(1, 1<<32).Draw(t, "schedseed")
+				p.SchedRate = 100
+			}
+			return p
+		},
+		Monitors:   world.MonitorsFor("C28"),
+		Nontrivial: func(r *world.Result) bool { return probe(r, "C28:view-compared") },
+	})
+}
+
+func init() {
+	// C18: real maker with the real RPC / electrum watchers; the CSV matures in one burst and
+	// right then the (hostile) taker's cancel or bad coop_close arrives; plus generic mixes.
+	register(&PropDef{
+		ID: "C18",
+		Gen: func(t *rapid.T, tier string) *world.Plan {
+			if rapid.IntRange(0, 3).Draw(t, "generic") == 0 {
+				return genPlan(t, genOpts{sched: true, maxNet: 2, maxLN: 1, silence: true, healAlways: true, inject: []string{"cancel", "coop"}, maxInject: 2, maxCrashes: 1})
+			}
+			chain := pick(t, "chain", []string{"btc", "lbtc"})
+			p := genPlan(t, genOpts{chains: []string{chain}, types: []string{"swapin"}, sched: true, duration: []int{600}})
+			p.Scn.Kind = [2]string{"real", "adv"}
+			p.Scn.LiquidBackend[0] = pick(t, "backend", []string{"elementsd", "lwk"})
+			p.Ops[0].Node = 0
+			p.Ops[0].Limit = 100000
+			burstAt := pick(t, "burstat", []int{90000, 150000})
+			burst := 1010
+			if chain == "lbtc" {
+				burst = 10090
+			}
+			p.Chain = append(p.Chain, world.ChainEv{AtMs: burstAt, Chain: chain, Kind: "mine", N: burst})
+			cfg := &world.AdvCfg{Role: "taker", Chain: chain, Amount: p.Ops[0].Amount}
+			// the taker's cancel / coop_close lands just around the burst
+			delta := pick(t, "delta", []int{-2000, -100, -10, 0, 0, 1, 5, 20, 50, 80, 99, 100, 101, 150, 200, 450, 500, 501, 600, 700, 3000})
+			p.Scn.RpcParkRate = pick(t, "park", []int{0, 0, 300, 1000})
+			p.Adv = append(p.Adv, world.AdvMove{Kind: "inject", AtMs: burstAt + delta, Arg: pick(t, "what", []string{"cancel", "coop", "cancel"}), N: 0, M: 1})
+			if rapid.Bool().Draw(t, "second") {
+				p.Adv = append(p.Adv, world.AdvMove{Kind: "inject", AtMs: burstAt + delta + pick(t, "delta2", []int{1, 100, 1000}), Arg: pick(t, "what2", []string{"cancel", "coop"}), N: 0, M: 1})
+			}
+			if rapid.Bool().Draw(t, "sched2") {
+				p.SchedSeed = rapid.Uint64Range(1, 1<<32).Draw(t, "schedseed2")
+				p.SchedRate = pick(t, "rate2", []int{100, 400})
+			}
+			p.AdvCfg = cfg
+			p.Heal = world.HealCfg{On: true, Restarts: 0, Blocks: 150, Seconds: 300}
+			return p
+		},
+		Monitors:   world.MonitorsFor("C18"),
+		Nontrivial: func(r *world.Result) bool { return probe(r, "inject:") },
 	})
 }
